@@ -14,7 +14,9 @@ Inductive ckind :=
 | CCmp (o : bop) (f : form) (brn : bool)    (* comparison; brn: used as a branch condition *)
 | CUn (o : uop) (f : form)                  (* -x ^x +x *)
 | CIncDec (inc : bool)                      (* x++ x-- *)
-| CConv.                                    (* K2(x): k = source kind, kc = target kind *)
+| CConv                                     (* K2(x): k = source kind, kc = target kind *)
+| CBinIfa (o : bop)                         (* q = x op y, q an existing interface variable *)
+| CUnIfa (o : uop).                         (* q = op x *)
 
 Inductive obs := OVal (z : Z) | OBool (b : bool) | OStr (s : string) | OPanic (p : pclass) | OStop | OOther.
 
@@ -46,14 +48,16 @@ Definition y_pred (c : ckind) (k kc : rkind) (x y : Z) : obs :=
   | CUn o f => of_y (run_row (select_un o k f) k (VInt k x) (VInt kc y))
   | CIncDec inc => of_y (run_row (select_incdec inc k) k (VInt k x) (VInt k x))
   | CConv => match y_convert kc (VInt k x) with Ok (VInt _ z) => OVal z | _ => OOther end
+  | CBinIfa o => of_y (run_row (select_bin_ifa o k) k (VInt k x) (VInt kc y))
+  | CUnIfa o => of_y (run_row (select_un_ifa o k) k (VInt k x) (VInt kc y))
   end.
 
 (** G: Go's operator at the kind *)
 Definition g_pred (c : ckind) (k kc : rkind) (x y : Z) : obs :=
   match c with
-  | CBin o _ | CAsg o _ => if is_shift o then of_res (go_shift o k x y) else of_res (go_arith o k x y)
+  | CBin o _ | CAsg o _ | CBinIfa o => if is_shift o then of_res (go_shift o k x y) else of_res (go_arith o k x y)
   | CCmp o _ _ => of_resb (go_cmp o x y)
-  | CUn o _ => of_res (go_unary o k x)
+  | CUn o _ | CUnIfa o => of_res (go_unary o k x)
   | CIncDec inc => OVal (if inc then go_inc k x else go_dec k x)
   | CConv => OVal (go_conv kc x)
   end.
@@ -77,13 +81,14 @@ Definition str_case := (N * ckind * string * string * obs * obs)%type.
 Definition ys_pred (c : ckind) (a b : string) : obs :=
   match c with
   | CBin Add f => of_y (run_row (select_bin Add KString f) KString (VStr a) (VStr b))
+  | CBinIfa Add => of_y (run_row (select_bin_ifa Add KString) KString (VStr a) (VStr b))
   | CAsg Add f => of_y (run_row (select_asg Add KString f) KString (VStr a) (VStr b))
   | CCmp o f brn => of_y (run_row (select_cmp o KString f brn) KBool (VStr a) (VStr b))
   | _ => OOther
   end.
 Definition gs_pred (c : ckind) (a b : string) : obs :=
   match c with
-  | CBin Add _ | CAsg Add _ => OStr (go_concat a b)
+  | CBin Add _ | CAsg Add _ | CBinIfa Add => OStr (go_concat a b)
   | CCmp o _ _ => of_resb (go_scmp o a b)
   | _ => OOther
   end.
